@@ -38,9 +38,9 @@ var ihNewer = an.Cmp{L: ihLTime, Op: ">", R: ihStatT}
 
 func init() {
 	register(&Rule{
-		ID: "C02",
+		ID:      "C02",
 		Explain: "Decides the last sentence of C02 for every input and schedule — a member's status time only grows and an intent not newer than the applied one changes nothing — as shape facts of the two intent handlers: every write of memberState.statusLTime module-wide is in an intent handler (or initialises a freshly allocated member), every status/time write and every true result there is edge-dominated by msg.LTime > member.statusLTime, stores msg.LTime, and sits in the memberLock write section; plus the transition table, the intent buffer's strict newer-than test, and the push/pull conversion (+1 for synthetic leaves). Cross-replica agreement is not decided.",
-		Run: runC02,
+		Run:     runC02,
 		Mutants: []Mutant{
 			{Name: "rename-locals", Equivalent: true, Regexp: true, File: "serf/serf.go", Func: "func (s *Serf) handleNodeLeaveIntent(", Old: `\b(member|ok|state)\b`, New: "${1}Renamed"},
 			{Name: "leave-guard-lt", File: "serf/serf.go", Func: "func (s *Serf) handleNodeLeaveIntent(", Old: "if leaveMsg.LTime <= member.statusLTime {", New: "if leaveMsg.LTime < member.statusLTime {", Expect: "R2"},
@@ -58,9 +58,9 @@ func init() {
 		},
 	})
 	register(&Rule{
-		ID: "C03",
+		ID:      "C03",
 		Explain: "Decides C03's structural clauses on all paths of the leave-intent handler: the refutation branch (claim about the local node while alive) is taken before any status/time write or prune; on it a join is broadcast whose time is a clock read dominated by a witness of the claim's time on the same clock (so, with C19's witness post-condition, strictly greater than the claim); the only conditions leading to the refutation are 'member known' and 'claim newer'; broadcastJoin applies and enqueues exactly that join. Not covered: memberlist never changing the local member's status by itself.",
-		Run: runC03,
+		Run:     runC03,
 		Mutants: []Mutant{
 			{Name: "no-witness", File: "serf/serf.go", Func: "func (s *Serf) handleNodeLeaveIntent(", Old: "\ts.clock.Witness(leaveMsg.LTime)\n", New: "", Expect: "R2"},
 			{Name: "refute-after-mutation", File: "serf/serf.go", Func: "func (s *Serf) handleNodeLeaveIntent(", Old: "\t// Refute us leaving if we are in the alive state\n", New: "\tmember.statusLTime = leaveMsg.LTime\n", Expect: "R1"},
@@ -72,9 +72,9 @@ func init() {
 		},
 	})
 	register(&Rule{
-		ID: "C04",
+		ID:      "C04",
 		Explain: "Decides C04 structurally: in each of the four handlers whose result feeds the rebroadcast decision, every path returning a possibly-true result passes the handler's 'mark' (status-time store / strictly-newer intent upsert / append to the slot's event list / append of the query id), the message then takes the already-seen path (C02.R2, and the slot-time/duplicate tests here), the retention window is exactly one buffer length so two retained times never share a slot, NotifyMsg enqueues only when a handler returned true, and MergeRemoteState never uses a handler result and reaches QueueBroadcast only through the refutation join. Hence a retained message is rebroadcast at most once.",
-		Run: runC04,
+		Run:     runC04,
 		Mutants: []Mutant{
 			{Name: "upsert-tie-replaces", File: "serf/serf.go", Func: "func upsertIntent(", Old: "!ok || ltime > intent.LTime", New: "!ok || ltime > intent.LTime || (ltime == intent.LTime && itype != intent.Type)", Expect: "R1|upsertIntent:strictly-newer"},
 			{Name: "leave-mark-only-on-transition", File: "serf/serf.go", Func: "func (s *Serf) handleNodeLeaveIntent(", Old: "\tmember.statusLTime = leaveMsg.LTime\n", New: "\tif member.Status == StatusAlive || member.Status == StatusFailed {\n\t\tmember.statusLTime = leaveMsg.LTime\n\t}\n", Expect: "R1"},
